@@ -965,9 +965,7 @@ def _run_path(contract, gridpoint, call_fn, rt, c, res):
     env["old"] = Env({k: _snapshot(v) for k, v in env.items() if k != "old"})
     c.ghost["inputs"] = inputs
     # known-finding regions (functions of the inputs)
-    known_regions = []
-    for kf in contract.known:
-        known_regions.append((kf, kf.region(env)))
+    known_regions = []        # filled after the preconditions are assumed (regions may divide by an operand)
     c.ghost["known_regions"] = known_regions
 
     def oblige(name, goal):
@@ -995,6 +993,8 @@ def _run_path(contract, gridpoint, call_fn, rt, c, res):
     if rq == z3.unsat:
         res["errors"].append("vacuous: requires unsatisfiable at grid %r" % (gridpoint,))
         return
+    for kf in contract.known:
+        known_regions.append((kf, _ceval(kf.region, env, "known-finding region %s" % kf.id)))
     if rt is not None:
         rt.reset(env["old"])
     # 3. call
